@@ -183,7 +183,7 @@ def run(tier, seed):
     apidriver.build()
     tools.build()
     base = core.seed_for("C15", seed) % (2 ** 31)
-    n = {"quick": 90, "thorough": 1500}[tier]
+    n = {"quick": 200, "thorough": 1500}[tier]
     res = core.pmap(job, [(base + i, bin_, chk.work) for i in range(n)], chunksize=2)
     programs = 0
     for r in res:
